@@ -1,7 +1,7 @@
 """C15: results are reproducible and do not depend on the order of the inputs."""
 import itertools, random
 from .. import core, slicegen, driver_common as dc
-from ..front_common import hx
+from ..front_common import hx, parse_diags
 from . import c04
 
 ALLOWED_AXIOMS = ()
@@ -11,7 +11,15 @@ COMPONENT = "validate"
 
 def collision_program(rng):
     """definitions sharing a scoped name across files, and a definition sharing its scoped name with a module of another file"""
-    kind = rng.choice(["def-def", "def-module", "def-module-deeper", "reopened-module", "several-collisions", "several-redefinitions", "preprocessor-symbols", "preprocessor-undef"])
+    kind = rng.choice(["def-def", "def-module", "def-module-deeper", "member-module", "member-module", "reopened-module", "several-collisions", "several-redefinitions", "preprocessor-symbols", "preprocessor-undef"])
+    if kind == "member-module":
+        # a field, enumerator, operation, parameter or return member that shares its scoped name with a module of another file, and doc links that name it
+        a = ("module A\ninterface I {\n    /// Like {@link I::op} and {@link op}.\n    op(p: int32) -> (r: bool, q: bool)\n    other()\n}\n"
+             "/// Uses {@link I::op}, {@link S::f} and {@link E::P}; see also {@link E::Q}.\n/// @see I::other\nstruct S { f: int32 }\nenum E { P, Q(x: int32) }\n")
+        path = rng.choice(["I::op", "I::op", "S::f", "E::P", "E::Q", "I::op::p", "I::op::r", "E::Q::x", "I::other"])
+        b = "module A::%s\nstruct Inside {}\n" % path
+        c = rng.choice(["module A\n/// From afar: {@link I::op}, {@link A::S::f}, {@link ::A::E::P}.\nstruct Far {}\n", "module Z\n/// {@link A::I::op} {@link A::E::Q} {@link A::I::other}\ncustom Zed\n"])
+        return rng.choice([[a, b], [a, b, c], [b, c, a]]), kind + ":" + path.replace("::", ".")
     if kind == "several-collisions":
         names = rng.sample(["Alpha", "Bravo", "Charlie", "Delta", "Echo", "Foxtrot"], rng.choice([3, 4, 5]))
         top = "module Top\n" + "\n".join("struct %s {}" % n for n in names) + "\n"
@@ -42,10 +50,11 @@ def collision_program(rng):
         a = "module A::B::C\nstruct Inner {}\n"
         b = "module A::B\nstruct C {}\n"
         return [a, b], kind
-    a = "module A\nstruct One {}\n"
-    b = "module A\nstruct Two { o: One }\n"
-    c = "module A::B\nstruct Three { o: One, t: A::Two }\n"
-    return [a, b, c], kind
+    # links that name the re-opened module: whatever is said about them is said the same way wherever the module was opened first
+    a = "module A\n/// In {@link A} and {@link ::A}; see {@link A::B}.\n/// @see A\nstruct One {}\n"
+    b = "module A\n/// {@link A}\nstruct Two { o: One }\n"
+    c = "module A::B\n/// {@link A::B} {@link B} {@link A}\nstruct Three { o: One, t: A::Two }\n"
+    return [a, b, c] + ([rng.choice(["module A\ncustom Four\n", "module A::B\ncustom Five\n"])] if rng.random() < 0.5 else []), kind
 
 
 def lint_program(rng):
@@ -61,18 +70,25 @@ def lint_program(rng):
         for u in range(rng.choice([1, 2, 3])):
             tgt = "Old%d" % rng.randrange(ndep)
             al = rng.choice(["", "", "[allow(Deprecated)] ", "[allow(All)] "])
-            form = rng.choice(["alias", "alias", "field", "param", "doc"])
+            form = rng.choice(["alias", "alias", "field", "param", "doc", "doc", "tagdoc"])
             if form == "alias":
                 body.append("%stypealias A%d_%d = %s" % (al, j, u, tgt))
             elif form == "field":
                 body.append("%sstruct S%d_%d { a: %s, b: Sequence<%s> }" % (al, j, u, tgt, tgt))
             elif form == "param":
                 body.append("%sinterface I%d_%d { op(p: %s) -> %s }" % (al, j, u, tgt, tgt))
+            elif form == "tagdoc":
+                # a tag that does not fit its element: reported by the validators, after everything else
+                body.append("/// @param nosuch%d: x\n%sstruct P%d_%d {}" % (u, al.replace("Deprecated", "IncorrectDocComment"), j, u))
             else:
-                body.append("/// See {@link Missing%d}.\n%sstruct D%d_%d {}" % (u, al.replace("Deprecated", "BrokenDocLink"), j, u))
+                body.append("/// See {@link Missing%d}, {@link Lib} and {@link ::Lib}.\n%sstruct D%d_%d {}" % (u, al.replace("Deprecated", "BrokenDocLink"), j, u))
         texts.append(fa + "module Lib\n" + "\n".join(body) + "\n")
     base = rng.choice([["Types.slice"] * k, ["Types.slice", "Types.slice"] + ["Main.slice"] * (k - 2), ["f%d.slice" % j for j in range(k)]])
     names = ["d%d/%s" % (j, b) for j, b in enumerate(base)]
+    if rng.random() < 0.4:
+        at = rng.randrange(len(texts) + 1)
+        texts.insert(at, "// no module\n" + rng.choice(["", "// nothing\n", "#if NEVER\nmodule Lib\n#endif\n"]))
+        names.insert(at, "d9/Empty.slice")
     return texts, names
 
 
@@ -95,6 +111,203 @@ def cycle_program(rng):
         rng.shuffle(fields)
         texts.append("module Cyc\nstruct T%d { %s }\nstruct Leaf%d { i: int32 }\n" % (a, ", ".join(fields), a))
     return texts
+
+
+def scoped_program(rng):
+    """files of names only (the vocabulary of coq/Sema/Scoped.v): module paths, definitions, members and their members drawn from a small pool so that
+    scoped identifiers collide within and across files, also with module paths"""
+    pool = list(range(1, rng.choice([5, 6, 8, 14, 30, 30, 60])))        # small pools: collisions everywhere; large ones: mostly accepted programs
+    nm = lambda: rng.choice(pool)
+    files = []
+    for fid in range(rng.choice([2, 2, 3, 4])):
+        if rng.random() < 0.07:
+            files.append({"id": fid, "module": None, "defs": []})
+            continue
+        mod = [nm() for _ in range(rng.choice([1, 1, 2, 2, 3, 4]))]
+        defs = []
+        for _ in range(rng.choice([1, 1, 2, 3])):
+            k = rng.choice("SSEEIIIO")
+            if k == "S":
+                defs.append(("S", nm(), [nm() for _ in range(rng.choice([0, 1, 2, 3]))]))
+            elif k == "E":
+                defs.append(("E", nm(), [(nm(), [nm() for _ in range(rng.choice([0, 0, 1, 2]))]) for _ in range(rng.choice([0, 1, 2, 3]))]))
+            elif k == "I":
+                defs.append(("I", nm(), [(nm(), [nm() for _ in range(rng.choice([0, 1, 2]))], [nm() for _ in range(rng.choice([0, 0, 2, 3]))]) for _ in range(rng.choice([0, 1, 2, 2]))]))
+            else:
+                defs.append(("O", nm(), rng.choice(["custom", "alias"])))
+        files.append({"id": fid, "module": mod, "defs": defs})
+    return files
+
+
+def scoped_render(f):
+    """-> (text with one identifier per line, {path: (row, col)}); a file without a module is a comment"""
+    if f["module"] is None:
+        return "// nothing here\n", {}
+    I = lambda n: "N%d" % n
+    lines, where = ["module " + "::".join(I(n) for n in f["module"])], {}
+    def put(text, path):
+        lines.append(text)
+        where[path] = (len(lines), len(text) - len(text.lstrip()) + 1)
+    for di, d in enumerate(f["defs"]):
+        if d[0] == "S":
+            lines.append("struct")
+            put(I(d[1]) + " {", (di,))
+            for mi, m in enumerate(d[2]):
+                put("    %s: int32," % I(m), (di, mi))
+            lines.append("}")
+        elif d[0] == "E":
+            lines.append("unchecked enum")
+            put(I(d[1]) + " {", (di,))
+            for mi, (m, subs) in enumerate(d[2]):
+                put("    %s%s" % (I(m), "(" if subs else ","), (di, mi))
+                for xi, x in enumerate(subs):
+                    put("        %s: int32," % I(x), (di, mi, xi))
+                if subs:
+                    lines.append("    ),")
+            lines.append("}")
+        elif d[0] == "I":
+            lines.append("interface")
+            put(I(d[1]) + " {", (di,))
+            for mi, (m, ps, rs) in enumerate(d[2]):
+                put("    %s(" % I(m), (di, mi))
+                for xi, x in enumerate(ps):
+                    put("        %s: int32," % I(x), (di, mi, xi))
+                lines.append("    )" + (" -> (" if rs else ""))
+                for xi, x in enumerate(rs):
+                    put("        %s: bool," % I(x), (di, mi, len(ps) + xi))
+                if rs:
+                    lines.append("    )")
+            lines.append("}")
+        else:
+            lines.append("custom" if d[2] == "custom" else "typealias")
+            put(I(d[1]) + ("" if d[2] == "custom" else " = int32"), (di,))
+    return "\n".join(lines) + "\n", where
+
+
+def scoped_model_line(files, keys):
+    t = [str(len(files))]
+    for f in files:
+        t += [str(f["id"]), str(-1 if f["module"] is None else len(f["module"]))] + [str(n) for n in (f["module"] or [])] + [str(len(f["defs"]))]
+        for d in f["defs"]:
+            if d[0] == "S":
+                t += ["S", str(d[1]), str(len(d[2]))] + [str(x) for x in d[2]]
+            elif d[0] == "E":
+                t += ["E", str(d[1]), str(len(d[2]))]
+                for m, subs in d[2]:
+                    t += [str(m), str(len(subs))] + [str(x) for x in subs]
+            elif d[0] == "I":
+                t += ["I", str(d[1]), str(len(d[2]))]
+                for m, ps, rs in d[2]:
+                    t += [str(m), str(len(ps))] + [str(x) for x in ps] + [str(len(rs))] + [str(x) for x in rs]
+            else:
+                t += ["O", str(d[1])]
+    t.append(str(len(keys)))
+    for k in keys:
+        t += [str(len(k))] + [str(n) for n in k]
+    return "scoped " + " ".join(t)
+
+
+def scoped_keys(rng, files):
+    ks = []
+    for f in files:
+        if f["module"] is None:
+            continue
+        mp = f["module"]
+        ks.append(tuple(mp))
+        for d in f["defs"]:
+            ks.append(tuple(mp + [d[1]]))
+            if d[0] == "S":
+                ks += [tuple(mp + [d[1], m]) for m in d[2]]
+            elif d[0] == "E":
+                for m, subs in d[2]:
+                    ks.append(tuple(mp + [d[1], m]))
+                    ks += [tuple(mp + [d[1], m, x]) for x in subs]
+            elif d[0] == "I":
+                for m, ps, rs in d[2]:
+                    ks.append(tuple(mp + [d[1], m]))
+                    ks += [tuple(mp + [d[1], m, x]) for x in ps + rs]
+    ks = sorted(set(ks))
+    rng.shuffle(ks)
+    return ks[:14] + [tuple(rng.choice([1, 2, 3, 9]) for _ in range(rng.choice([1, 2, 3])))]
+
+
+def scoped_stream(ck):
+    """the lookup table and the redefinition pass of the real front end against coq/Sema/Scoped.v, in two orders of the files"""
+    import re
+    rng = ck.rng
+    n = 400 if ck.tier == "quick" else 4000
+    ck.stream("scoped-names", description="programs of names only (2-4 files; module paths of 1-4 segments, structs, enums with enumerator fields, interfaces with operations, parameters and return members, "
+              "custom types and aliases; all names from a pool of 4-7, so that scoped identifiers collide within and across files and with module paths), compiled in the order given and in a random other order: "
+              "the identifiers named by the E010 reports equal the model's redefinition report (coq/Sema/Scoped.v), the same in both orders; for accepted programs Ast::find_node of every scoped identifier of the "
+              "program finds what the model's table holds (a module of that name, or the entity at that place of that file), the same in both orders")
+    progs, ilines, mlines = [], [], []
+    for _ in range(n):
+        files = scoped_program(rng)
+        keys = scoped_keys(rng, files)
+        rendered = {f["id"]: scoped_render(f) for f in files}
+        orders = [list(range(len(files)))]
+        perm = orders[0][:]
+        rng.shuffle(perm)
+        orders.append(perm)
+        for order in orders:
+            fs = [files[j] for j in order]
+            ilines.append("lookup - " + " ".join(hx(rendered[f["id"]][0]) for f in fs) + " -- " + " ".join(hx("::".join("N%d" % x for x in k)) for k in keys))
+            mlines.append(scoped_model_line(fs, keys))
+        progs.append((files, keys, rendered, orders))
+    o = core.run_impl("lookup", ilines, chunk=200, timeout=120)
+    m = core.run_model("validate", mlines, chunk=500)
+    for pi, (files, keys, rendered, orders) in enumerate(progs):
+        case = "\n--\n".join("[file %d]\n%s" % (f["id"], rendered[f["id"]][0]) for f in files)
+        ck.count("scoped-names", case, kind="%d files, %s" % (len(files), "accepted" if m[2 * pi].startswith("ok") else "rejected"))
+        seen = []
+        for oi, order in enumerate(orders):
+            oo, mo = o[2 * pi + oi], m[2 * pi + oi]
+            if " || " not in oo or " | " not in mo:
+                ck.violation("scoped-names", "crash", case, mo[:200], oo[:300], signature={"order": oi})
+                break
+            dtxt, ltxt = oo.split(" || ", 1)
+            dl = parse_diags(dtxt)
+            if dl is None:
+                ck.violation("scoped-names", "crash", case, mo[:200], oo[:300], signature={"order": oi})
+                break
+            other = [d for d in dl if d["code"] != "E010" and d["level"] == "Error"]
+            real_report = sorted(int(re.search(r"redefinition of 'N(\d+)'", d["msg"]).group(1)) for d in dl if d["code"] == "E010")
+            mrep, mlook = mo.split(" | ", 1)
+            model_report = [] if mrep == "ok" else [int(x) for x in mrep.split()]
+            if other:
+                ck.violation("scoped-names", "unexpected-error", case, "only redefinition errors, if any", "%s %s" % (other[0]["code"], other[0]["msg"]), kind="correspondence")
+                break
+            if real_report != model_report:
+                ck.violation("scoped-names", "redefinition-report-differs", case, "redefinitions of %s (order %s)" % (model_report, order), "redefinitions of %s" % real_report, kind="correspondence",
+                             signature={"missing": len(real_report) < len(model_report)})
+                break
+            # lookups, translated to (file id, path)
+            rl = []
+            for item in ltxt.split(" ; "):
+                t = item.split(" ")
+                if t[0] == "module":
+                    rl.append("module " + ".".join(x[1:] for x in t[1].split("::")))
+                elif t[0] == "entity":
+                    fid = order[int(t[1].rsplit("-", 1)[1])]
+                    row, col = (int(x) for x in t[2].split(":"))
+                    path = [p for p, rc in rendered[fid][1].items() if rc == (row, col)]
+                    rl.append("entity %d %s" % (fid, ".".join(str(x) for x in path[0])) if path else "entity %d at %d:%d ?" % (fid, row, col))
+                else:
+                    rl.append(t[0])
+            ml = mlook.split(" ; ")
+            if rl != ml and not model_report:
+                k = next(i for i in range(min(len(rl), len(ml))) if rl[i] != ml[i]) if len(rl) == len(ml) else 0
+                ck.violation("scoped-names", "lookup-differs", case, "%s -> %s (order %s)" % ("::".join("N%d" % x for x in keys[k]), ml[k], order), rl[k] if k < len(rl) else "?", kind="correspondence")
+                break
+            seen.append((real_report, rl))
+        else:
+            (r0, l0), (r1, l1) = seen
+            if (r0 == []) != (r1 == []):
+                ck.violation("scoped-names", "acceptance-depends-on-order", case, "the same verdict in both orders", "order %s: %s; order %s: %s" % (orders[0], r0, orders[1], r1))
+            elif not r0 and l0 != l1:
+                k = next(i for i in range(len(l0)) if l0[i] != l1[i])
+                ck.violation("scoped-names", "lookup-depends-on-order", case, "%s found the same in both orders" % "::".join("N%d" % x for x in keys[k]), "%s with order %s, %s with order %s" % (l0[k], orders[0], l1[k], orders[1]))
+    ck.samples.append({"stream": "scoped-names", "case": ilines[0][:300], "impl": o[0][:300], "model": m[0][:300]})
 
 
 def file_tables(mo):
@@ -147,6 +360,9 @@ def run(ck):
         if rng.random() < 0.25:
             # a file that declares a module and nothing else (with attributes, or with its definitions compiled out): it is still a file of the program
             texts.insert(rng.randrange(len(texts) + 1), rng.choice(["module Only%d\n", "[[allow(All)]]\nmodule Only%d\n", "module Only%d\n#if NEVER\nstruct Gone {}\n#endif\n", "[x::m] module M\n// %d\n"]) % i)
+        if rng.random() < 0.3:
+            # a file with no module at all (empty, a comment, everything compiled out): nothing of it is compiled, and it changes nothing for the others wherever it is listed
+            texts.insert(rng.randrange(len(texts) + 1), "// no module" + rng.choice(["", "\n", "\n// nothing here\n", "\n#if NEVER\nmodule Gone\nstruct G {}\n#endif\n", "\n\n\n"]))
         progs.append((texts, fam, mline))
     # runs: the baseline twice (fresh processes), every permutation of up to 4 files (sampled beyond), source/reference assignments
     lines, index = [], []
@@ -168,8 +384,8 @@ def run(ck):
             lines.append(dc.run_line(False, ["--diagnostic-format", "json"], [("gen-ok-0", None, None)], files))
             index.append((pi, vi, perm, roles))
     o = dc.run_all(lines, chunk=12)
-    ck.stream("orders", description="multi-file programs (valid; with one injected rule violation; with a deprecated definition used elsewhere; one struct per file forming containment cycles with tails leading in and finite types leading out; files that declare only a module; several files of one module using deprecated definitions and broken links at module scope and inside definitions with file-level and element-level allow attributes, base names repeated across directories; definitions sharing a scoped name across files; a definition sharing its scoped "
-              "name with a module declared in another file, several such collisions and redefinitions at once; re-opened modules; preprocessor symbols defined or undefined in one file and tested in another) run through the real binary with a capturing generator: the same command line four times in fresh processes, every permutation of up to 4 files, "
+    ck.stream("orders", description="multi-file programs (valid; with one injected rule violation; with a deprecated definition used elsewhere; one struct per file forming containment cycles with tails leading in and finite types leading out; files that declare only a module, files with no module at all; several files of one module using deprecated definitions and broken links at module scope and inside definitions with file-level and element-level allow attributes, base names repeated across directories; definitions sharing a scoped name across files; a definition sharing its scoped "
+              "name with a module declared in another file, members (fields, enumerators, operations, parameters) doing so with doc links that name them, several such collisions and redefinitions at once; re-opened modules; preprocessor symbols defined or undefined in one file and tested in another) run through the real binary with a capturing generator: the same command line four times in fresh processes, every permutation of up to 4 files, "
               "and source/reference re-assignments. Compared: stderr and generator request byte for byte between the two identical runs; acceptance (exit status) across all variants and against the rule model's verdict; "
               "for accepted programs every file's decoded request content and the multiset of warnings across all variants.")
     runs = {}
@@ -222,11 +438,11 @@ def run(ck):
                 ck.violation("orders", "request-not-decodable", case, "a decodable request", dec.get((pi, vi), "no request")[:200])
                 break
             files, srcs, refs = tab
-            want_s = [hx(names[j]) for j in perm if roles[j] == "S"]
-            want_r = [hx(names[j]) for j in perm if roles[j] == "R"]
+            want_s = [hx(names[j]) for j in perm if roles[j] == "S" and not texts[j].startswith("// no module")]
+            want_r = [hx(names[j]) for j in perm if roles[j] == "R" and not texts[j].startswith("// no module")]
             if ["s:" + x for x in want_s] != srcs or ["s:" + x for x in want_r] != refs:
                 ck.violation("orders", "file-order-not-preserved", case, "sources %s then references %s" % (want_s, want_r), "%s / %s" % (srcs, refs))
-            warns = sorted((d.get("error_code"), d.get("message"), str(d.get("span"))) for d in dc.json_diags(r["stderr"]) if d.get("severity") == "warning")
+            warns = sorted((d.get("error_code"), d.get("message"), str(d.get("span")), str(d.get("notes"))) for d in dc.json_diags(r["stderr"]) if d.get("severity") == "warning")
             if base_tab is None:
                 base_tab, base_warn = files, warns
                 continue
@@ -238,4 +454,5 @@ def run(ck):
                 ck.violation("orders", "warnings-depend-on-order", case, "the same set of warnings", "%s vs %s (order %s roles %s)" % (base_warn[:3], warns[:3], perm, "".join(roles)))
                 break
     ck.samples.append({"stream": "orders", "case": lines[0][:300], "impl": o[0][:300], "model": (mverdicts or ["-"])[0]})
+    scoped_stream(ck)
     ck.extra["rule"] = "%d programs, %d runs of the binary; distinct by program text" % (n, len(lines))
